@@ -632,23 +632,4 @@ theorem fromPartialGate_ok {d N : Nat} (C : Vector (Mat ℂ d d) N) (aO aT : ℝ
 
 /-! ### Source pins -/
 
-/-- **Source pin** for the parts of `basis.py` that the model mirrors by hand: the operands of the
-generated contractions (`'...jj'` of `istraceless` / `ggm_expand`, `'ij,jkl'` of
-`_full_from_partial`, `'bij,bji->b'` of `expand`) and the normalised source text of the four flag
-properties (single-element shortcut of `isorthonorm`, tolerances `eps·d³`, `eps·(d²)³`,
-`remove_float_errors(trace, d²)`, the `offdiag_nonzero[0].size == 0` test, `matrix_rank`). -/
-theorem basis_source_shape :
-    Gen.basis_Basis_istraceless_0_subscripts = "...jj" ∧
-    Gen.basis_Basis_istraceless_0_args = ["self"] ∧
-    Gen.basis__full_from_partial_0_subscripts = "ij,jkl" ∧
-    Gen.basis__full_from_partial_0_args = ["coeffs", "ggm"] ∧
-    Gen.basis_expand_0_subscripts = "bij,bji->b" ∧
-    Gen.basis_ggm_expand_0_subscripts = "...jj" ∧
-    Gen.basis_ggm_expand_0_args = ["M"] ∧
-    Gen.basisIshermBody = "if self._isherm is None: self._isherm = self.H == self ; return self._isherm" ∧
-    Gen.basisIsorthonormBody = "if self._isorthonorm is None: if self.ndim == 2 or len(self) == 1: self._isorthonorm = True else: dim = self.shape[0] U = self.reshape((dim, -1)) actual = U.conj() @ U.T target = np.identity(dim) atol = self._eps * (self.d ** 2) ** 3 self._isorthonorm = np.allclose(actual.view(np.ndarray), target, atol=atol, rtol=self._rtol) ; return self._isorthonorm" ∧
-    Gen.basisIstracelessBody = "if self._istraceless is None: trace = np.einsum('...jj', self) trace = util.remove_float_errors(trace, self.d ** 2) nonzero = np.atleast_1d(trace).nonzero() if nonzero[0].size == 0: self._istraceless = True elif nonzero[0].size == 1: if self.ndim == 3: elem = self[nonzero][0].view(np.ndarray) else: elem = self.view(np.ndarray) offdiag_nonzero = elem[~np.eye(self.d, dtype=bool)].nonzero() diag_equal = np.diag(elem) == elem[0, 0] if diag_equal.all() and offdiag_nonzero[0].size == 0: self._istraceless = True else: self._istraceless = False else: self._istraceless = False ; return self._istraceless" ∧
-    Gen.basisIscompleteBody = "if self._iscomplete is None: A = self.reshape(self.shape[0], -1) rank = np.linalg.matrix_rank(A) self._iscomplete = rank == self.d ** 2 ; return self._iscomplete" :=
-  ⟨rfl, rfl, rfl, rfl, rfl, rfl, rfl, rfl, rfl, rfl, rfl⟩
-
 end FFVerif.C14
